@@ -196,6 +196,8 @@ def run_case(ctx, case):
                 ctx.hit('caller-edits-the-equivalences-it-was-handed')
             except Exception:  # noqa
                 ctx.count('equivalences_not_editable')
+        if it % 2 == 0:
+            emmon.disturb(ctx, emap, tgtm, refm)
         persistent = refm.copy()
         ctx.hit('ref:' + rcls)
         ctx.hit('geometry:' + info['geometry'])
